@@ -47,7 +47,9 @@ Definition round_exp (sc : sscenario) (t : N) (evs : list N) : list exp :=
   | Some body => map (fun e => (tv, ep_dest e, body)) (dedup_ep (live_at sc t))
   end.
 
-(* the cyclic rounds: waiting until there is a client, then every interval while clients remain *)
+(* the cyclic rounds (cyclic_notify): wait until there is a client; sleep one interval; run a round over the
+   endpoints present at the wake-up (it lasts as long as the address resolution); back to the top of the loop.
+   A waiter that was woken continues even if the event was cleared again in the meantime (asyncio.Event.wait). *)
 Fixpoint cyclic_rounds (fuel : nat) (sc : sscenario) (sleeping_until : option N) (pending : list (N * sapi))
   : list N * bool :=    (* (round instants, ambiguous?) *)
   match fuel with
@@ -57,26 +59,39 @@ Fixpoint cyclic_rounds (fuel : nat) (sc : sscenario) (sleeping_until : option N)
       | Some T =>
           if ss_end sc <? T then ([], false) else
           let amb := negb (busy_at sc T =? 0) in
-          let pending' := filter (fun p => negb (fst p <=? T)) pending in
-          let '(r, a) := match live_at sc T with
-                         | [] => cyclic_rounds f sc None pending'
-                         | _ => cyclic_rounds f sc (Some (T + ss_interval sc)) pending'
-                         end in
-          (T :: r, a || amb)
+          match live_at sc T with
+          | [] =>
+              let '(r, a) := cyclic_rounds f sc None (filter (fun p => negb (fst p <=? T)) pending) in (T :: r, a || amb)
+          | _ =>
+              let T2 := T + ss_resolve sc in
+              let amb2 := negb (ss_resolve sc =? 0) && negb (busy_at sc T2 =? 0) in
+              let pending' := filter (fun p => negb (fst p <=? T2)) pending in
+              let '(r, a) := match live_at sc T2 with
+                             | [] => cyclic_rounds f sc None pending'
+                             | _ => cyclic_rounds f sc (Some (T2 + ss_interval sc)) pending'
+                             end in
+              (T :: r, a || amb || amb2)
+          end
       | None =>
           match pending with
           | [] => ([], false)
           | (t, c) :: r =>
               match accepted sc c with
-              | Some _ => match live_at sc t with
-                          | [] => cyclic_rounds f sc None r   (* subscribed and unsubscribed at the same instant *)
-                          | _ => cyclic_rounds f sc (Some (t + ss_interval sc)) r
-                          end
+              | Some _ => cyclic_rounds f sc (Some (t + ss_interval sc)) r
               | None => cyclic_rounds f sc None r
               end
           end
       end
   end.
+
+(* the domain of the property: every explicitly requested event has a value when requested and when sent *)
+Definition in_domain (sc : sscenario) : bool :=
+  forallb (fun p => match snd p with
+                    | SNotifyOnce evs => let v1 := vals_at sc (fst p) in
+                                         let v2 := vals_at sc (fst p + ss_resolve sc) in
+                                         forallb (fun ev => amem N.eqb ev v1 && amem N.eqb ev v2) evs
+                    | _ => true
+                    end) (ss_events sc).
 
 Definition expected_sends (sc : sscenario) : list exp * bool :=
   let initial := flat_map (fun p => match accepted sc (snd p) with
@@ -114,16 +129,28 @@ Definition body_eqb (a b : list (N * bytes)) : bool :=
   list_eqb (fun x y => (fst x =? fst y) && list_eqb N.eqb (snd x) (snd y)) a b.
 Definition exp_eqb (a b : exp) : bool :=
   (fst (fst a) =? fst (fst b)) && (snd (fst a) =? snd (fst b)) && body_eqb (snd a) (snd b).
-Definition multiset_eqb (a b : list exp) : bool :=
-  Nat.eqb (length a) (length b)
-  && forallb (fun x => Nat.eqb (length (filter (exp_eqb x) a)) (length (filter (exp_eqb x) b))) a.
+Fixpoint remove_exp (x : exp) (l : list exp) : option (list exp) :=
+  match l with
+  | [] => None
+  | y :: r => if exp_eqb x y then Some r
+              else match remove_exp x r with Some r' => Some (y :: r') | None => None end
+  end.
+(* multiset equality: every element of a is removed once from b, nothing may remain *)
+Fixpoint multiset_eqb (a b : list exp) : bool :=
+  match a with
+  | [] => match b with [] => true | _ => false end
+  | x :: r => match remove_exp x b with Some b' => multiset_eqb r b' | None => false end
+  end.
+
+Fixpoint ids_from (k : N) (ids : list N) : bool :=
+  match ids with [] => true | x :: r => (x =? nth_id k) && ids_from (k + 1) r end.
 
 (* F14: two live subscriptions naming the same endpoint at some instant *)
 Definition f14_pattern (sc : sscenario) : bool :=
   existsb (fun p => let l := live_at sc (fst p) in negb (Nat.eqb (length l) (length (dedup_ep l)))) (ss_events sc).
 
 (* codes: 1 header of a notification wrong / undecodable, 2 per-destination session ids not 1,2,3,...,
-   3 transmissions differ from the expected initial / explicit / cyclic notifications, 5 refusals, 9 = F14 pattern *)
+   3 transmissions differ from the expected initial / explicit / cyclic notifications, 5 refusals *)
 Definition check_C17 (sc : sscenario) (tr : strace) : list N :=
   let sends := flat_map (fun p => match snd p with SvSent d data => [(fst p, d, data)] | _ => [] end) tr in
   let decoded := map (fun x => (x, decode_notifications (ss_svc sc) (ss_major sc) (snd x))) sends in
@@ -133,15 +160,15 @@ Definition check_C17 (sc : sscenario) (tr : strace) : list N :=
                                  | None => []
                                  end) decoded in
   let dests := (fix dd (l : list N) := match l with [] => [] | x :: r => if memN x r then dd r else x :: dd r end) (map fst flat) in
-  let c2 := if forallb (fun d =>
+  let c2 := if negb (in_domain sc) then [] else if forallb (fun d =>
                   let ids := map (fun x => snd (fst (snd x))) (filter (fun x => fst x =? d) flat) in
-                  list_eqb N.eqb ids (map (fun k => nth_id (N.of_nat k)) (seq 1 (length ids)))) dests then [] else [2] in
+                  ids_from 1 ids) dests then [] else [2] in
   let actual := map (fun x => match snd x with
                               | Some l => (fst (fst (fst x)), snd (fst (fst x)), map (fun n => (fst (fst n), snd n)) l)
                               | None => (0, 0, [])
                               end) decoded in
   let '(expected, amb) := expected_sends sc in
-  let c3 := if amb then [] else if multiset_eqb actual expected then [] else [if f14_pattern sc then 9 else 3] in
+  let c3 := if amb || negb (in_domain sc) then [] else if multiset_eqb actual expected then [] else [3] in
   let naks := len (filter (fun p => match snd p with SvNak => true | _ => false end) tr) in
   let c5 := if naks =? len (filter (fun p => refused sc (snd p)) (ss_events sc)) then [] else [5] in
   c2 ++ c3 ++ c5.
